@@ -570,6 +570,50 @@ pub fn _unused() -> u64 {
 
 // ---------------------------------------------------------------------------------------------
 
+/// C01, packet-id cycle: remembers the first data frames of a long stream and delivers copies of
+/// them again when the receiver's packet window has come round to the same 20-bit ids (the
+/// frames' 32-bit frame ids are by then far behind the frame window).
+pub struct CycleReplayer {
+    sender: usize,
+    receiver: usize,
+    p0: u32,
+    recorded: Vec<Vec<u8>>,
+    volleys: u32,
+}
+
+impl CycleReplayer {
+    pub fn new(plan: &Plan, sender: usize, receiver: usize) -> Self {
+        let p0 = match &plan.endpoints[receiver].kind {
+            EndpointKind::Hc { spec, .. } => spec.rx_packet_base_id,
+            _ => 0,
+        };
+        Self { sender, receiver, p0, recorded: Vec::new(), volleys: 0 }
+    }
+}
+
+impl Adversary for CycleReplayer {
+    fn on_wire(&mut self, w: &WireRec, _now_us: u64, _plan: &Plan, _out: &mut Vec<TimedOp>) {
+        if w.src == self.sender && w.bytes.first() == Some(&10) && self.recorded.len() < 120 {
+            self.recorded.push((*w.bytes).clone());
+        }
+    }
+
+    fn on_call_end(&mut self, _call: u64, ep: Option<usize>, probe: &Probe, now_us: u64, plan: &Plan, out: &mut Vec<TimedOp>) {
+        if ep != Some(self.receiver) || now_us >= plan.end_us || self.volleys >= 4 {
+            return;
+        }
+        let Probe::Hc(h) = probe else { return };
+        let progress = h.rx_packet_base_id.wrapping_sub(self.p0) & 0xFFFFF;
+        let marks = [0x100000 - 4000, 0x100000 - 2500, 0x100000 - 1000, 0x100000 - 100];
+        if progress >= marks[self.volleys as usize] && progress < 0x100000 - 10 || (self.volleys > 0 && progress < 0x1000) {
+            self.volleys += 1;
+            for (i, b) in self.recorded.iter().enumerate() {
+                out.push(TimedOp { t_us: now_us + 1 + i as u64, rank: DELIVER_RANK_PUB, op: Op::Inject { to: self.receiver, from: self.sender, bytes: b.clone(), twin: false } });
+            }
+        }
+    }
+}
+
 /// C04's hostile middlebox: once a genuine fragment of a multi-fragment packet has been let
 /// through (links in this scenario preserve order, so it has reached the receiver first), later
 /// genuine frames that have room are re-encoded in transit with one more, forged datagram for the
